@@ -8,8 +8,8 @@ import RV.C03.BaseRelLemmas
 /-
   C03 — property theorems: "serialise then parse gives back the same RDF graph".
 
-  Layer 1 (this part): term codecs.  Writers = models of rdflib's code (replace chains regenerated from
-  the source into Tables.lean); readers = the W3C grammars.
+  Layer 1 (this part): term codecs.  Writers = per-character maps regenerated from rdflib's BEHAVIOUR into
+  Tables.lean (plus the long form's two context rules for quotes); readers = the W3C grammars.
 -/
 namespace RV.C03
 
@@ -33,6 +33,22 @@ def Statement_turtle_str_roundtrip : Prop :=
 def Statement_nt_line_roundtrip : Prop :=
   ∀ (s : NTerm) (p : Str) (o : NTerm), NodeWf s → IriWf p → ObjWf o →
     parseLine (ntRow s (.iri p) o) = some (s, .iri p, o)
+
+/-- ANY writer given by a per-character map: if the regenerated table passes the decidable `mapOK` (the
+    characters the grammar forbids raw — `req`, containing `"`, `\`, CR, and LF unless the text has none — have
+    entries, and every entry is a backslash escape, ECHAR or UCHAR, of its own character), the mapped text
+    between quotes is one STRING_LITERAL_QUOTE that decodes to the text.  `nt_lit_roundtrip` and the short branch
+    of `turtle_str_roundtrip` are the instances for the tables of the current implementation (`ntMap_ok`,
+    `shortMap_ok`, re-decided on every run). -/
+def Statement_map_writer_roundtrip : Prop :=
+  ∀ (req : List Char) (m : List (Char × Str)), mapOK req m = true → dq ∈ req → bs ∈ req → cr ∈ req →
+    ∀ s : Str, (lf ∈ req ∨ lf ∉ s) → decShortBody dq (s.flatMap (escOf m) ++ [dq]) = some s
+
+/-- … and the long form: the per-character map (backslash must have an entry) plus the two built-in context
+    rules for quotes, closed by `"""`, is one STRING_LITERAL_LONG_QUOTE that decodes to the text. -/
+def Statement_long_writer_roundtrip : Prop :=
+  ∀ (m : List (Char × Str)), mapOK [bs] m = true →
+    ∀ s : Str, decLongBody dq (encLong m s ++ [dq, dq, dq]) = some s
 
 /-! ### Statements — numeric / boolean shorthand -/
 
@@ -88,6 +104,19 @@ theorem turtle_str_roundtrip : Statement_turtle_str_roundtrip := by
   by_cases h : lf ∈ s
   · exact turtle_long_roundtrip s h
   · exact turtle_short_roundtrip s h
+
+theorem map_writer_roundtrip : Statement_map_writer_roundtrip :=
+  fun _ _ h hdq hbs hcr s hlf => map_body_roundtrip h hdq hbs hcr s hlf
+
+theorem long_writer_roundtrip : Statement_long_writer_roundtrip := fun _ h s => long_decode h s
+
+/-- non-vacuity: a table that also escapes TAB as `\t` and U+0001 as `\u0001` passes `mapOK`; one that writes a
+    newline as `\\n` (escaping the escape) or forgets the quote does not -/
+example : mapOK [dq, bs, lf, cr]
+    (('\t', ['\\', 't']) :: (Char.ofNat 1, ['\\', 'u', '0', '0', '0', '1']) :: Tables.ntMap) = true := by decide
+example : mapOK [dq, bs, lf, cr] [('\\', ['\\', '\\']), ('\n', ['\\', '\\', 'n']), ('"', ['\\', '"']), ('\r', ['\\', 'r'])]
+    = false := by decide
+example : mapOK [dq, bs, lf, cr] [('\\', ['\\', '\\']), ('\n', ['\\', 'n']), ('\r', ['\\', 'r'])] = false := by decide
 
 theorem nt_line_roundtrip : Statement_nt_line_roundtrip := fun s p o hs hp ho => nt_line_roundtrip' s p o hs hp ho
 
